@@ -962,7 +962,9 @@ def _mask(sig, num_args, hide_args, hide_kwargs,
             if varargs:
                 src.pop(varargs.name, None)
                 varargs = None
-            pokargs_by_name.clear()
+            # the parameters before the one just named are still
+            # positional-or-keyword and may be named in turn
+            pokargs_by_name = dict((p.name, p) for p in pokargs)
         elif kwarg_name in kwoargs:
             if partial_mode:
                 param = kwoargs[kwarg_name]
